@@ -63,3 +63,101 @@ Proof.
   rewrite P, T. lia.
 Qed.
 
+
+(* ================= bnd ================= *)
+Lemma rnext_total s t s' : rnext s = Some (t, s') -> rtotal s = S (rtotal s').
+Proof.
+  unfold rtotal. induction s as [|l r IH]; cbn [rnext]; [discriminate|].
+  destruct l as [|x l']; intros H.
+  - cbn [concat app]. apply IH. exact H.
+  - inversion H; subst. cbn [concat app length]. reflexivity.
+Qed.
+Lemma rskip_total s : (rtotal (rskip s) <= rtotal s)%nat.
+Proof. unfold rtotal, rskip. destruct s as [|l r]; cbn [tl concat]; [lia|]. rewrite app_length. lia. Qed.
+Lemma r_word1_total s w s' : r_word1 s = (w, s') -> (rtotal s' <= rtotal s)%nat.
+Proof.
+  unfold r_word1. destruct (rnext s) as [[t s1]|] eqn:E; intros H; inversion H; subst.
+  - apply rnext_total in E. lia.
+  - unfold rtotal. cbn. lia.
+Qed.
+Lemma r_uint_total s n s' : r_uint s = MOk (n, s') -> rtotal s = S (rtotal s').
+Proof.
+  unfold r_uint. destruct (rnext s) as [[t s1]|] eqn:E; [|discriminate]. destruct (r_int t); [|discriminate].
+  intros H; inversion H; subst. eapply rnext_total; eauto.
+Qed.
+Lemma r_dbl1_total s n s' : r_dbl1 s = MOk (n, s') -> rtotal s = S (rtotal s').
+Proof.
+  unfold r_dbl1. destruct (rnext s) as [[t s1]|] eqn:E; [|discriminate]. destruct (r_dbl t); [|discriminate].
+  intros H; inversion H; subst. eapply rnext_total; eauto.
+Qed.
+
+Lemma r_many_total get k :
+  (forall s x r, get s = MOk (x, r) -> rtotal s = S (rtotal r)) ->
+  forall s xs r, r_many get k s = MOk (xs, r) -> rtotal s = (k + rtotal r)%nat /\ length xs = k.
+Proof.
+  intros G. induction k as [|k IH]; intros s xs r H; cbn [r_many] in H.
+  - inversion H; subst. split; reflexivity.
+  - destruct (get s) as [[x r1]|e] eqn:E; [|discriminate].
+    destruct (r_many get k r1) as [[xs' r2]|e] eqn:E2; [|discriminate].
+    inversion H; subst. apply G in E. apply IH in E2. cbn [length]. lia.
+Qed.
+
+Lemma r_items_total get k :
+  (forall s x r, get s = MOk (x, r) -> rtotal s = S (rtotal r)) ->
+  forall fuel n s xs r, r_items fuel get k n s = MOk (xs, r) ->
+  Z.of_nat (length xs) = Z.max 0 n /\ Z.of_nat (rtotal s) = Z.of_nat k * Z.max 0 n + Z.of_nat (rtotal r).
+Proof.
+  intros G. induction fuel as [|fuel IH]; intros n s xs r H; cbn [r_items] in H.
+  - destruct (n <=? 0) eqn:En; [|discriminate]. inversion H; subst. cbn [length]. split; lia.
+  - destruct (n <=? 0) eqn:En.
+    + inversion H; subst. cbn [length]. split; lia.
+    + destruct (r_many get k s) as [[x r1]|e] eqn:E; [|discriminate].
+      destruct (r_items fuel get k (n - 1) r1) as [[xs' r2]|e] eqn:E2; [|discriminate].
+      inversion H; subst. apply (r_many_total get k G) in E. apply IH in E2.
+      destruct E as [E Ex]. destruct E2 as (L1 & L2). cbn [length].
+      assert (M : Z.max 0 n = Z.max 0 (n - 1) + 1) by lia. rewrite M. split; [lia|].
+      rewrite Z.mul_add_distr_l. lia.
+Qed.
+
+(* a bnd file that is accepted holds the announced numbers of vertices and triangles: exactly those are returned,
+   and the file has at least three tokens for each of them *)
+Theorem bnd_announced_count_checked s pts trs :
+  read_bnd s = MOk (pts, trs) ->
+  exists npts ntr : Z,
+    Z.of_nat (length pts) = Z.max 0 npts /\ Z.of_nat (length trs) = Z.max 0 ntr /\
+    3 * Z.max 0 npts + 3 * Z.max 0 ntr + 2 <= Z.of_nat (rtotal s).
+Proof.
+  unfold read_bnd. intros H.
+  destruct (r_word1 s) as [w0 s0] eqn:E0. assert (T0 := r_word1_total _ _ _ E0).
+  destruct (if w0 =? 1 then r_word1 (rskip s0) else (w0, s0)) as [w1 s1] eqn:E1.
+  assert (T1 : (rtotal s1 <= rtotal s0)%nat).
+  { destruct (w0 =? 1); [|inversion E1; subst; lia]. apply r_word1_total in E1. assert (K := rskip_total s0). lia. }
+  destruct (negb (w1 =? 2)); [discriminate|].
+  destruct (r_uint s1) as [[npts s2]|e] eqn:E2; [|discriminate]. apply r_uint_total in E2.
+  destruct (r_word1 s2) as [w2 s3] eqn:E3. assert (T3 := r_word1_total _ _ _ E3).
+  set (s4 := if w2 =? 3 then rskip s3 else s3) in *.
+  assert (T4 : (rtotal s4 <= rtotal s3)%nat) by (unfold s4; destruct (w2 =? 3); [apply rskip_total|lia]).
+  destruct (r_word1 s4) as [w3 s5] eqn:E5. assert (T5 := r_word1_total _ _ _ E5).
+  destruct (negb (w3 =? 4)); [discriminate|].
+  destruct (r_items (S (rtotal s5)) r_dbl1 3 npts s5) as [[ps s6]|e] eqn:E6; [|discriminate].
+  apply (r_items_total r_dbl1 3 r_dbl1_total) in E6. destruct E6 as [P1 P2].
+  destruct (r_word1 s6) as [w4 s7] eqn:E7. assert (T7 := r_word1_total _ _ _ E7).
+  destruct (negb (w4 =? 5)); [discriminate|].
+  destruct (r_uint s7) as [[ntr s8]|e] eqn:E8; [|discriminate]. apply r_uint_total in E8.
+  destruct (r_word1 s8) as [w5 s9] eqn:E9. assert (T9 := r_word1_total _ _ _ E9).
+  destruct (negb (w5 =? 6)); [discriminate|].
+  destruct (r_word1 s9) as [w6 s10] eqn:E10. assert (T10 := r_word1_total _ _ _ E10).
+  destruct (negb (w6 =? 7)); [discriminate|].
+  destruct (r_word1 s10) as [w7 s11] eqn:E11. assert (T11 := r_word1_total _ _ _ E11).
+  destruct (negb (w7 =? 8)); [discriminate|].
+  destruct (r_items (S (rtotal s11)) r_uint 3 ntr s11) as [[qs s12]|e] eqn:E12; [|discriminate].
+  apply (r_items_total r_uint 3 r_uint_total) in E12. destruct E12 as [Q1 Q2].
+  unfold check_tris in H. destruct (forallb (in_range npts) qs); [|discriminate].
+  injection H as Hp Ht. subst pts trs.
+  exists npts, ntr. split; [exact P1|]. split; [exact Q1|]. lia.
+Qed.
+
+(* hence no file with fewer tokens than the returned vertices and triangles need can be accepted *)
+Theorem bnd_short_file_rejected s pts trs :
+  Z.of_nat (rtotal s) < 3 * Z.of_nat (length pts) + 3 * Z.of_nat (length trs) + 2 -> read_bnd s <> MOk (pts, trs).
+Proof. intros Hs H. destruct (bnd_announced_count_checked s pts trs H) as (a & b & A & B & C). lia. Qed.
